@@ -30,6 +30,7 @@ fn qforms(id: u32, full: bool) -> Vec<(String, Entry, Vec<Seg>)> {
         ("some".into(), Entry::SomeCall, vec![seg(r(0), Quant::Open)]),
         ("exact1".into(), Entry::EachCall, vec![seg(r(0), Quant::N(1))]),
         ("atleast1".into(), Entry::EachCall, vec![seg(r(0), Quant::AtLeast(1))]),
+        ("some-atleast1".into(), Entry::SomeCall, vec![seg(r(0), Quant::AtLeast(1))]),
         (
             "exact1-then-open".into(),
             Entry::EachCall,
@@ -72,6 +73,16 @@ fn qforms(id: u32, full: bool) -> Vec<(String, Entry, Vec<Seg>)> {
                 vec![seg(r(0), Quant::N(n)), seg(r(1), Quant::AtLeast(m))],
             ));
         }
+        v.push((
+            "some-atleast2".into(),
+            Entry::SomeCall,
+            vec![seg(r(0), Quant::AtLeast(2))],
+        ));
+        v.push((
+            "some-answers-atleast1".into(),
+            Entry::SomeCall,
+            vec![seg(Resp::AnsArc(id + 5), Quant::AtLeast(1))],
+        ));
         v.push((
             "some-once".into(),
             Entry::SomeCall,
